@@ -85,7 +85,7 @@ impl<'a> GlueMessage<'a> {
             if msgs.into_iter().any(|msg| msg == &recv_msg_name) {
                 match val.deserialize_into() {
                     Ok(msg) => return Ok(Self:: #contract_name (msg)),
-                    Err(err) => return Err(D::Error::custom(err)).map(Self:: #contract_name )
+                    Err(err) => return Err(SvDeserializerT::Error::custom(err)).map(Self:: #contract_name )
                 };
             }
         };
@@ -189,18 +189,18 @@ impl<'a> GlueMessage<'a> {
             #response_schemas
 
             impl<'sv_de, #(#generics,)* > #sylvia ::serde::Deserialize<'sv_de> for #contract_enum_name #bracketed_wrapper_generics #full_where_clause {
-                fn deserialize<D>(deserializer: D) -> Result<Self, D::Error>
-                    where D: #sylvia ::serde::Deserializer<'sv_de>,
+                fn deserialize<SvDeserializerT>(deserializer: SvDeserializerT) -> Result<Self, SvDeserializerT::Error>
+                    where SvDeserializerT: #sylvia ::serde::Deserializer<'sv_de>,
                 {
                     use #sylvia ::serde::de::Error;
 
                     let val = #sylvia ::serde_value::Value::deserialize(deserializer)?;
                     let map = match &val {
                         #sylvia ::serde_value::Value::Map(map) => map,
-                        _ => return Err(D::Error::custom("Wrong message format!"))
+                        _ => return Err(SvDeserializerT::Error::custom("Wrong message format!"))
                     };
                     if map.len() != 1 {
-                        return Err(D::Error::custom(format!("Expected exactly one message. Received {}", map.len())))
+                        return Err(SvDeserializerT::Error::custom(format!("Expected exactly one message. Received {}", map.len())))
                     }
 
                     // Due to earlier size check of map this unwrap is safe
@@ -222,7 +222,7 @@ impl<'a> GlueMessage<'a> {
                         |mut acc, message| acc + message + ", ",
                     );
                     err_msg.truncate(err_msg.len() - 2);
-                    Err(D::Error::custom(err_msg))
+                    Err(SvDeserializerT::Error::custom(err_msg))
                 }
             }
 
